@@ -150,6 +150,15 @@ def _gen_build(rng, spin_mode, slot):
                 if rng.random() < 0.08 and a[0] != "delta":
                     a = ["pow", a, 2]
                 atoms.append(a)
+        if rng.random() < 0.12 and allidx:
+            # a normal-ordered operator string; an index may sit on a creator and on an
+            # annihilator of the same string (a summed index of the string itself)
+            ops = []
+            for _ in range(rng.choice([1, 1, 2])):
+                p = rng.choice(allidx)
+                q = p if rng.random() < 0.5 else rng.choice(allidx)
+                ops += [["c", p], ["a", q]]
+            atoms.append(["no", ops])
         if not atoms:
             continue
         if rng.random() < 0.25 and avail["occ"] and avail["virt"]:
@@ -458,6 +467,15 @@ class C08Session:
             return KroneckerDelta(self.sym(a[1]), self.sym(a[2]))
         if kind == "pow":
             return Pow(self.mk_atom(a[1]), a[2])
+        if kind == "no":
+            from sympy.physics.secondquant import NO, Fd, F
+            from sympy import Mul
+            cr = [self.sym(t) for k, t in a[1] if k == "c"]
+            an = [self.sym(t) for k, t in a[1] if k == "a"]
+            if len(set(cr)) < len(cr) or len(set(an)) < len(an):
+                from sympy import S
+                return S.Zero       # the same operator twice: the string vanishes
+            return NO(Mul(*([Fd(t) for t in cr] + [F(t) for t in an])))
         if kind == "denom":
             d = 0
             for tok, sign in a[1]:
@@ -502,9 +520,20 @@ class C08Session:
         idx = tuple(sorted(x.atoms(self.Index) | y.atoms(self.Index),
                            key=lambda s: (self.key_of(s), _suffix(s.name), s.name,
                                           s.dummy_index)))
-        fx, fy = self.fp_all(x, idx), self.fp_all(y, idx)
         self.probes["structural_diff"] = self.probes.get("structural_diff", 0) + 1
-        return fx is not None and fx == fy
+        xe, ye = x.expand(), y.expand()
+        if xe == ye:
+            # the same polynomial written with / without common factors pulled out
+            return True
+        fx, fy = self.fp_all(x, idx), self.fp_all(y, idx)
+        if fx is None or fy is None:
+            # not evaluable by the tensor model (operator strings): identical alpha-normal
+            # form with every index held fixed
+            from .alpha import normal_form
+            nx = normal_form(xe, idx, Index=self.Index)
+            ny = normal_form(ye, idx, Index=self.Index)
+            return nx is not None and nx == ny
+        return fx == fy
 
     def fp_all(self, expr, idx):
         from .tensor_model import fingerprint, NotEvaluable
@@ -882,9 +911,16 @@ class C08Session:
                     mult = abs(int(ex))
                 if a.is_Number:
                     continue
-                if not hasattr(a, "idx"):
+                if type(a).__name__ == "NO":
+                    ops = a.args[0].args if isinstance(a.args[0], Mul) else (a.args[0],)
+                    idx_ = [o.args[0] for o in ops]
+                elif type(a).__name__ in ("CreateFermion", "AnnihilateFermion"):
+                    idx_ = [a.args[0]]
+                elif hasattr(a, "idx"):
+                    idx_ = a.idx
+                else:
                     return None
-                for s_ in a.idx:
+                for s_ in idx_:
                     cnt[s_] = cnt.get(s_, 0) + mult
             once = {s_ for s_, n in cnt.items() if n == 1}
             if any(n > 2 for n in cnt.values()):
@@ -1112,9 +1148,15 @@ class C08Session:
             self.probes["chain_map"] += 1
         if len(img) < len(dom):
             self.probes["many2one_map"] += 1
+        try:
+            want = sl["expr"].xreplace({o: n for o, n in m.items()})
+        except AttributeError:
+            # a many-to-one map that puts the same operator twice into a normal-ordered
+            # string: sympy itself cannot build the result of the simultaneous substitution
+            self.probes["map_merges_operators"] = self.probes.get("map_merges_operators", 0) + 1
+            return {"skip": True}
         ordered = order_substitutions(dict(pairs))
         got = sl["expr"].subs(ordered)
-        want = sl["expr"].xreplace({o: n for o, n in m.items()})
         if got != want and self.same_value_all_indices(got, want):
             pass
         elif got != want:
